@@ -185,4 +185,231 @@ theorem PInv.resume_waitProc {w : World} (hp : PInv ex fr w) {p q : Pid} (hfr : 
     · intro x hx; rw [hcw x] at hx; exact hstill (hwt x hx).2
     · intro h l hm; exact hnoW h l hm
 
+
+/-! ### wait_event continued -/
+
+/-- taking `p` off the waiter list of event `h` -/
+def dropEvWaiter (ws : List (Nat × List Pid)) (h : Nat) (p : Pid) : List (Nat × List Pid) :=
+  ws.map fun (k, l) => if k = h then (k, (removeFirst l p).1) else (k, l)
+
+theorem dropEvWaiter_keys (ws : List (Nat × List Pid)) (h : Nat) (p : Pid) :
+    (dropEvWaiter ws h p).map (·.1) = ws.map (·.1) := by
+  unfold dropEvWaiter
+  rw [List.map_map]
+  apply List.map_congr_left
+  intro x _
+  rcases x with ⟨k, l⟩
+  simp only [Function.comp]
+  split <;> rfl
+
+theorem dropEvWaiter_mem {ws : List (Nat × List Pid)} {h : Nat} {p : Pid} {k : Nat} {l' : List Pid}
+    (hm : (k, l') ∈ dropEvWaiter ws h p) :
+    ∃ l, (k, l) ∈ ws ∧ l' = if k = h then (removeFirst l p).1 else l := by
+  unfold dropEvWaiter at hm
+  obtain ⟨⟨k0, l0⟩, hx, heq⟩ := List.mem_map.1 hm
+  simp only at heq
+  split at heq
+  · rename_i hk
+    have h1 : k0 = k := congrArg Prod.fst heq
+    have h2 : (removeFirst l0 p).1 = l' := congrArg Prod.snd heq
+    subst h1; exact ⟨l0, hx, by rw [if_pos hk, h2]⟩
+  · rename_i hk
+    have h1 : k0 = k := congrArg Prod.fst heq
+    have h2 : l0 = l' := congrArg Prod.snd heq
+    subst h1; exact ⟨l0, hx, by rw [if_neg hk, h2]⟩
+
+theorem dropEvWaiter_lookup (ws : List (Nat × List Pid)) (h : Nat) (p : Pid) (k : Nat) :
+    (dropEvWaiter ws h p).lookup k = (ws.lookup k).map fun l => if k = h then (removeFirst l p).1 else l := by
+  induction ws with
+  | nil => rfl
+  | cons x xs ih =>
+    rcases x with ⟨k0, l0⟩
+    unfold dropEvWaiter at ih ⊢
+    simp only [List.map_cons]
+    by_cases hk0 : k0 = h
+    · simp only [hk0, if_true, List.lookup_cons]
+      by_cases hk : k = h
+      · subst hk; simp
+      · have : (k == h) = false := by simpa using hk
+        simp only [this]; exact ih
+    · simp only [hk0, if_false, List.lookup_cons]
+      by_cases hk : k = k0
+      · subst hk; simp [hk0]
+      · have : (k == k0) = false := by simpa using hk
+        simp only [this]; exact ih
+
+theorem PInv.dropEvWaiter {w : World} (hp : PInv ex fr w) (h : Nat) (p : Pid) :
+    PInv ex fr { w with evWaiters := dropEvWaiter w.evWaiters h p } := by
+  have hsubW : ∀ k x, x ∈ evWaitersOf { w with evWaiters := S3.dropEvWaiter w.evWaiters h p } k → x ∈ evWaitersOf w k := by
+    intro k x hx
+    unfold evWaitersOf at hx ⊢
+    simp only [dropEvWaiter_lookup] at hx
+    cases hl : w.evWaiters.lookup k with
+    | none => rw [hl] at hx; simp at hx
+    | some l =>
+      rw [hl] at hx
+      simp only [Option.map_some, Option.getD_some] at hx ⊢
+      split at hx
+      · exact removeFirst_subset l p x hx
+      · exact hx
+  refine { hp with e1 := ?_, en := ?_, es := ?_, oe := ?_ }
+  · intro k l' q hm hq hx
+    obtain ⟨l, hl, heq⟩ := dropEvWaiter_mem hm
+    refine hp.e1 k l q hl ?_ hx
+    rw [heq] at hq; split at hq
+    · exact removeFirst_subset l p q hq
+    · exact hq
+  · refine ⟨by simp only [dropEvWaiter_keys]; exact hp.en.1, ?_⟩
+    intro k l' hm
+    obtain ⟨l, hl, heq⟩ := dropEvWaiter_mem hm
+    rw [heq]; split
+    · exact (removeFirst_nodup l p (hp.en.2 k l hl)).1
+    · exact hp.en.2 k l hl
+  · intro k l' hm
+    obtain ⟨l, hl, _⟩ := dropEvWaiter_mem hm
+    exact hp.es k l hl
+  · intro e he ha x hb hx
+    obtain ⟨h', h1, h2⟩ := hp.oe e he ha x hb hx
+    exact ⟨h', h1, fun hm => h2 (hsubW h' x hm)⟩
+
+/-- what the invariant says about a process suspended in `wait_event h` -/
+theorem PInv.waitEvent_facts {w : World} (hp : PInv ex fr w) {p : Pid} {h : Nat} (hfr : fr p = some (.waitEvent h)) (hxp : ¬ ex p) :
+    procAw w p = [] ∧ (evAw w p = [] ∨ evAw w p = [.event h]) ∧
+    (∀ e ∈ w.ev.pending, e.item.a = aProc → e.item.b ≠ p + 1) ∧
+    (∀ x, p ∉ (w.proc x).waiters) ∧
+    (∀ k l, (k, l) ∈ w.evWaiters → p ∈ l → k = h ∧ Await.event h ∈ (w.proc p).awaits) ∧
+    (∀ e ∈ w.ev.pending, e.item.a = aEvent → e.item.b = p + 1 →
+      Await.event h ∈ (w.proc p).awaits ∧ p ∉ evWaitersOf w h ∧ h ∉ keys w.ev.pending) := by
+  have h1 : procAw w p = [] := by
+    rcases hp.ap p with h' | ⟨q, hf, _⟩
+    · exact h'
+    · rw [hfr] at hf; cases hf
+  have h2 : evAw w p = [] ∨ evAw w p = [.event h] := by
+    rcases hp.ae p with h' | ⟨h', hf, hh⟩
+    · exact Or.inl h'
+    · rw [hfr] at hf; cases hf; exact Or.inr hh
+  have hmem : ∀ k, Await.event k ∈ (w.proc p).awaits → k = h := by
+    intro k hk
+    rw [mem_awaits_event] at hk
+    rcases h2 with h' | h'
+    · rw [h'] at hk; cases hk
+    · rw [h'] at hk; simpa using hk
+  refine ⟨h1, h2, ?_, ?_, ?_, ?_⟩
+  · intro e he ha hb
+    obtain ⟨q, hm, _⟩ := hp.op e he ha p hb hxp
+    rw [mem_awaits_proc, h1] at hm; cases hm
+  · intro x hx
+    have := hp.w1 x p hx hxp
+    rw [mem_awaits_proc, h1] at this; cases this
+  · intro k l hm hpl
+    have := hp.e1 k l p hm hpl hxp
+    have hk := hmem k this
+    subst hk; exact ⟨rfl, this⟩
+  · intro e he ha hb
+    obtain ⟨k, h1', h2'⟩ := hp.oe e he ha p hb hxp
+    have := hmem k h1'; subst this
+    exact ⟨h1', h2', (hp.oh e he ha p hb hxp k h1').1⟩
+
+/-- `wait_event h` continued (for whatever reason): afterwards `p` is registered nowhere, has no event-done wake-up
+    pending, and the invariant holds with `p` not suspended -/
+theorem PInv.resume_waitEvent {w : World} (hp : PInv ex fr w) {p : Pid} {h : Nat} (hfr : fr p = some (.waitEvent h))
+    (hxp : ¬ ex p) (sig : Int) :
+    PInv ex (setFrame fr p none) (resumeFrame (w.modProc p fun y => { y with blocked := none }) p (.waitEvent h) sig).1 := by
+  obtain ⟨hpa, hea, hnoP, hnoW, hwt, hoe⟩ := hp.waitEvent_facts hfr hxp
+  obtain ⟨hcev, hcew, hcw⟩ := clearedWorld_frame w p (.event h)
+  have hfil1 : ((removeFirst (w.proc p).awaits (Await.event h)).1).filter isProcA = [] := by
+    rw [removeFirst_filter_ne _ _ _ rfl]; exact hpa
+  have hfil2 : ((removeFirst (w.proc p).awaits (Await.event h)).1).filter isEventA = [] := by
+    rw [removeFirst_filter_self _ _ _ rfl]
+    have : (w.proc p).awaits.filter isEventA = evAw w p := rfl
+    rw [this]
+    rcases hea with h' | h' <;> rw [h'] <;> simp [removeFirst]
+  have hB : PInv (exAdd ex p) fr (clearedWorld w p (.event h)) :=
+    (hp.exempt p).modProcEx _ rfl rfl hfil1 hfil2
+  have hBnil : ∀ w', (∀ x, (w'.proc x).awaits = ((clearedWorld w p (.event h)).proc x).awaits) →
+      procAw w' p = [] ∧ evAw w' p = [] := by
+    intro w' hw'
+    unfold procAw evAw; rw [hw' p]
+    by_cases hs : p < w.procs.size
+    · unfold clearedWorld; rw [modProc_proc_self w _ hs]; exact ⟨hfil1, hfil2⟩
+    · unfold clearedWorld; rw [modProc_proc]; simp only [hs, and_false, if_false]
+      rw [proc_oob w (Nat.le_of_not_lt hs)]; exact ⟨rfl, rfl⟩
+  have finish : ∀ w', PInv (exAdd ex p) fr w' → (procAw w' p = [] ∧ evAw w' p = []) →
+      (∀ e ∈ w'.ev.pending, e.item.a = aProc ∨ e.item.a = aEvent → e.item.b ≠ p + 1) →
+      (∀ x, p ∉ (w'.proc x).waiters) → (∀ k l, (k, l) ∈ w'.evWaiters → p ∉ l) →
+      PInv ex (setFrame fr p none) w' := by
+    intro w' h' hnil hne hnw hnev
+    have h'' : PInv (exAdd ex p) (setFrame fr p none) w' := by
+      refine h'.setFr _ ?_ ?_
+      · intro x hx
+        by_cases hxp' : x = p
+        · subst hxp'; exact hnil
+        · rw [setFrame_ne _ _ hxp'] at hx; exact absurd rfl hx
+      · intro x hxx hx
+        have hxp' : x ≠ p := fun h => hxx (Or.inr h)
+        rw [setFrame_ne _ _ hxp'] at hx; exact h'.fb x hxx hx
+    exact h''.unexempt hne hnw hnev (fun _ => hnil)
+  simp only [resumeFrame, removeAwait_cleared]
+  by_cases hstill : Await.event h ∈ (w.proc p).awaits
+  · simp only [hstill, decide_true, if_true]
+    by_cases hsch : isScheduled (clearedWorld w p (.event h)).ev h = true
+    · simp only [hsch, if_true]
+      have hC := hB.dropEvWaiter h p
+      refine finish _ hC ?_ ?_ ?_ ?_
+      · apply hBnil; intro x; rfl
+      · intro e he hk hb
+        rcases hk with hk | hk
+        · exact hnoP e he hk hb
+        · have := (hoe e he hk hb).2.2
+          apply this
+          have : (clearedWorld w p (.event h)).ev = w.ev := rfl
+          rw [this] at hsch
+          simpa [isScheduled] using hsch
+      · intro x hx; exact hnoW x (by rw [← hcw x]; exact hx)
+      · intro k l' hm hpl
+        obtain ⟨l, hl, heq⟩ := dropEvWaiter_mem hm
+        rw [heq] at hpl
+        split at hpl
+        · exact (removeFirst_nodup l p (hp.en.2 k l hl)).2 hpl
+        · rename_i hk; exact hk (hwt k l hl hpl).1
+    · simp only [hsch, Bool.false_eq_true, if_false]
+      have hD := hB.cancelKindFor_fst p aEvent none
+      obtain ⟨hrel, hgone, _, _⟩ := cancelKindFor_spec (clearedWorld w p (.event h)) p aEvent none hp.ei
+      -- h is not scheduled, so nobody is registered with it; p is registered with nothing else
+      have hnoreg : ∀ k l, (k, l) ∈ w.evWaiters → p ∉ l := by
+        intro k l hm hpl
+        have hk := (hwt k l hm hpl).1
+        subst hk
+        have := hp.es k l hm
+        apply hsch
+        have he : (clearedWorld w p (.event k)).ev = w.ev := rfl
+        rw [he]
+        simpa [isScheduled] using this
+      refine finish _ hD ?_ ?_ ?_ ?_
+      · apply hBnil; intro x; rw [hrel.proc x]
+      · intro e he hk hb
+        rcases hrel.pend e he with hold | ⟨hc, h', l, x, hm, hx, heq⟩
+        · rcases hk with hk | hk
+          · exact hnoP e hold hk hb
+          · have hle := EvInv.key_le hp.ei (show e ∈ w.ev.pending from hold)
+            have := hgone e he hle
+            simp [kindMatch, hb, hk] at this
+        · rw [heq] at hb
+          simp only [mkEv] at hb
+          have : x = p := Nat.add_right_cancel hb
+          subst this
+          exact hnoreg h' l hm hx
+      · intro x hx
+        rw [hrel.proc x, hcw x] at hx
+        exact hnoW x hx
+      · intro k l hm; exact hnoreg k l (hrel.evWaiters _ hm)
+  · simp only [hstill, decide_false, Bool.false_eq_true, if_false]
+    refine finish _ hB (hBnil _ (fun _ => rfl)) ?_ ?_ ?_
+    · intro e he hk hb
+      rcases hk with hk | hk
+      · exact hnoP e he hk hb
+      · exact hstill (hoe e he hk hb).1
+    · intro x hx; rw [hcw x] at hx; exact hnoW x hx
+    · intro k l hm hpl; exact hstill (hwt k l hm hpl).2
+
 end CimbaModel.Sim.S3
